@@ -115,6 +115,23 @@ def check(env, rep, tier):
                 kinds["too_large"] += 1
                 if ret != {"true"} or not ("add_option_as:Block1" in marks or "add_option:Block1" in marks):
                     ok["too_large"] = False
+        # ---- C09.12 from the public entry point: whatever answers a block with 2.31 Continue has put that block into the per-key
+        #      buffer on the same path (no helper in front of / beside the upload handler acknowledges a block unspliced,
+        #      e.g. as a presumed retransmission), and a final block's body is only handed over on a path that spliced it
+        ir_b = find_body(prog, blockutil.HANDLER + "intercept_request")
+        if ir_b is not None and ir_b["id"] != tr.body["id"]:
+            tre = Trace(prog, "intercept_request")
+            n_c = bad_c = 0
+            for s_, rv_ in tre.res:
+                m_ = set(k[1] for k in s_.ghost if isinstance(k, tuple) and k[0] == "inj")
+                if "code:Continue" in m_ or "req-payload-set" in m_:
+                    n_c += 1
+                    if "spliced" not in m_:
+                        bad_c += 1
+            rep.ob("C09.12", "entry|acknowledged=>spliced", n_c > 0 and bad_c == 0,
+                   "intercept_request acknowledges an upload block (2.31 Continue, or hands over the reassembled body) on %d of %d paths without "
+                   "having spliced that block into the per-key buffer: the block is lost from the body" % (bad_c, n_c),
+                   {"file": ir_b["span"]["f"], "line": ir_b["span"]["l"], "fn": ir_b["path"]}, sample={"rule": "C09.12", "paths": n_c})
         rep.ob("C09.1", "continue", ok["continue"] and kinds["continue"] > 0,
                "a non-final upload block is not always answered 2.31 Continue + Block1 with Ok(true) and the request payload left alone (paths: %d)" % kinds["continue"], site,
                sample={"rule": "C09.1", "continue_paths": kinds["continue"], "final_paths": kinds["final"], "too_large_paths": kinds["too_large"]})
